@@ -14,7 +14,7 @@ def _const(sv): return {"k": "const", "v": {"t": "String", "v": sv}}
 def _val(n): return {"k": "val", "v": {"t": "Int", "v": str(n)}}
 # inlined constants (not bound) next to bound values: text with quote / backslash / mark characters
 EXTRA = [_sel(_const(c), _val(7001), _const(c), _val(7002)) for c in ["a\\", "it's", "?", "$1", "a\\'b", "q\"d", "x''y", "\\", "", "[b?]", "`"]] + \
-        [{"kind": "select", "calls": [{"op": "column", "c": "id"}, {"op": "from", "t": ["t1"]},
+        [{"kind": "select", "calls": [{"op": "column", "n": "id"}, {"op": "from", "t": ["t1"]},
                                       {"op": "order_by", "e": {"k": "col", "n": "c"}, "o": {"d": "Field", "field": [{"t": "String", "v": c}, {"t": "String", "v": "k"}]}},
                                       {"op": "limit", "n": 3}]} for c in ["a\\", "it's", "?", "$1"]]
 
